@@ -163,6 +163,16 @@ let () =
       let tainted : (int, unit) Hashtbl.t = Hashtbl.create 8 in
       let books : (int, book) Hashtbl.t = Hashtbl.create 8 in
       let book_of k = (match Hashtbl.find_opt books k with Some b -> b | None -> let b = new_book () in Hashtbl.replace books k b; b) in
+      (* a quiet SETDATA / REMOVEDATA of session kk: the mirror statement stays applicable for the sessions none of whose
+         subscription paths reaches below kk's session node (quiet_frame); the sender itself and everybody who can see it are out *)
+      let reaches (canon_pat : string) (kk : int) : bool =
+        (match String.split_on_char '/' canon_pat with
+         | c0 :: c1 :: _ -> clause_match c0 "H" && clause_match c1 (string_of_int kk)
+         | _ -> false) in
+      let quiet_by (kk : int) : unit =
+        Hashtbl.replace tainted kk ();
+        Hashtbl.iter (fun id (bk : book) ->
+          if id <> kk && Hashtbl.fold (fun pat _ acc -> acc || reaches pat kk) bk.flts false then Hashtbl.replace tainted id ()) books in
       let host = intern "H" in
       List.iteri (fun j op ->
         let f = split ':' op in
@@ -181,14 +191,14 @@ let () =
             let cmds = List.filter_map (fun so ->
                 let sf = split '~' so in
                 let pr = parse_cmd (book_of kk) (List.hd sf) (List.tl sf) in
-                if pr.quiet_all then quiet_used := true;
+                if pr.quiet_all then quiet_by kk;
                 if pr.taint_self then Hashtbl.replace tainted kk ();
                 pr.cmd) subs in
             (true, Some (ECmd (n_of_int kk, CBatch cmds)))
           end
           else begin
             let pr = parse_cmd (book_of kk) code (match f with _ :: _ :: r -> r | _ -> []) in
-            if pr.quiet_all then quiet_used := true;
+            if pr.quiet_all then quiet_by kk;
             if pr.taint_self then Hashtbl.replace tainted kk ();
             match pr.cmd with Some c -> (true, Some (ECmd (n_of_int kk, c))) | None -> (false, None)
           end in
